@@ -18,8 +18,25 @@ def roles_of(facts, adt_path=ANIM_ADT):
         "current_state": lambda t: t == "State",
         "current_values": lambda t: "Target" in t and "Option" not in t,
         "pause": lambda t: t.startswith("core::option::Option<(State"),
-        "time": lambda t: t == "core::time::Duration",
+        # the accumulated time in the current state: whatever representation it has (C06 judges the representation)
+        "time": lambda t: t in ("core::time::Duration", "f32", "f64", "u64", "u128"),
     })
+
+
+def is_zero_time(t):
+    if pse.is_const(t):
+        v = t[2]
+        if isinstance(v, tuple) and v[0] == "f":
+            return v[2] == 0.0
+        if isinstance(v, int) and not isinstance(v, bool):
+            return v == 0
+        return "Duration::ZERO" in str(v)
+    return False
+
+
+def as_seconds(t):
+    """accepted readings of the accumulated time as f32 seconds: Duration::as_secs_f32(&t), t itself, t as f32"""
+    return (("call", "core::time::Duration::as_secs_f32", (("&", t),)), t, ("cast", "FloatToFloat", t, "f32"))
 
 
 class Row:
@@ -103,8 +120,7 @@ def is_ref_to_field(tab, ev_arg, role):
 
 def time_arg_ok(tab, row, ev):
     """third argument of update is <final state_duration>.as_secs_f32()"""
-    a = ev["descs"][2]
-    return a[0] == "call" and a[1] == "core::time::Duration::as_secs_f32" and a[2] == (("&", row.final["time"]),)
+    return ev["descs"][2] in as_seconds(row.final["time"])
 
 
 # ---------------------------------------------------------------------------------------------------
@@ -171,7 +187,7 @@ def rules_c04(ctx, tab, tag=""):
                    % [(u["callee"], [show(d) for d in u["descs"]]) for u in st], site, trace_of(r.path),
                    what="blend-missing-or-wrong")
             zero = r.final["time"]
-            okz = pse.is_const(zero) and "Duration::ZERO" in str(zero[2])
+            okz = is_zero_time(zero)
             ctx.ob("R3" + tag, "row[%s]/time-zero" % r.label, okz,
                    "a (re)started animation starts at time zero; state_duration is %s" % show(zero), site,
                    trace_of(r.path), what="restart-time-not-zero")
